@@ -350,6 +350,7 @@ pub fn run_check(prop: &dyn Property, tier: Tier) -> i32 {
     let replay_dir = verif_root().join("replays");
     let _ = std::fs::create_dir_all(&replay_dir);
     let mut reported = 0;
+    let mut unreproduced: Vec<String> = vec![];
     for (key, ris) in &by_key {
         if let Some(text) = known.lookup(pid, key) {
             let line = format!("KNOWN-FINDING: property={} {} [key={} hits={}]", pid, text, key, ris.len());
@@ -401,8 +402,16 @@ pub fn run_check(prop: &dyn Property, tier: Tier) -> i32 {
         }
         println!("violation check={} index={} : {}", key, idx, fv.msg);
         println!("replay verification: reproduced={} (of up to {} fresh-process attempts)", reproduced > 0, tries);
-        println!("VIOLATION property={} replay={}", pid, path.display());
-        exit_code = 1;
+        if reproduced > 0 {
+            println!("VIOLATION property={} replay={}", pid, path.display());
+            exit_code = 1;
+        } else {
+            // A failure that no fresh process can reproduce from its replay file is not reported as a
+            // violation (one seed must be one repeatable execution); it is kept, counted and shown.
+            println!("UNREPRODUCED property={} check={} replay={} (kept for inspection; counted in the evidence, not an alarm)", pid, key, path.display());
+            unreproduced.push(format!("{} index={} {}", key, idx, path.display()));
+            n_violations -= ris.len();
+        }
     }
 
     let wall = t0.elapsed().as_secs_f64();
@@ -424,6 +433,7 @@ pub fn run_check(prop: &dyn Property, tier: Tier) -> i32 {
         "skipped": skipped,
         "advisories": advisories,
         "known_findings": known_lines,
+        "unreproduced_failures": unreproduced,
         "wall_cap_hit": capped.load(Ordering::SeqCst),
         "workers": workers,
     });
